@@ -134,11 +134,27 @@ PROPS = {
              shards=(8, 16), n=(40, 1500),
              trusted=["santhosh-tekuri/jsonschema v5 is the implementation under comparison (third party); schema well-formedness (meta-schema validation) is its own and only exercised by the hand-written error cases",
                       "regular expressions: only the portable subset (literals, ., classes, \\d \\w \\s, * + ?, ^ $) is modelled and generated"]),
+    "C11": P("cases = generated schemas (type-scoped contexts for every node type, property-scoped contexts for a third of the nested properties, prefixes, id/type aliases, typed and untyped literals, references, nested objects 1-3 deep, "
+             "arrays) with a conforming document; for every leaf of the document its dotted path (numeric segments for arrays), plus unknown terms, paths continuing below a leaf and the empty path: Merklizer.ResolveDocPath, "
+             "Options.FieldPathFromContext(type, path), TypeFromContext, Entry under the resolved path - vs the model's three resolvers and the expansion specification; TypeIDFromContext vs the stored rdf:type; hand-written "
+             "shapes for the known divergences (type-scoped term redefined in a nested node, out-of-range index, heterogeneous array, paths ending in aliases of @type / @id, a scoped context that fails to load); "
+             "non-trivial = paths with more than one segment; distinct = distinct (schema, document, path) hashes",
+             shards=(8, 16), n=(25, 500),
+             trusted=["json-gold context processing (ld.Context.Parse, term definitions) is what the Go resolvers run on; the model works on abstract contexts (flat term tables) produced by the same generator that renders the JSON-LD context",
+                      "the expansion specification in Gsp.Ctx.storedKey is validated against json-gold through the stored keys (Entry exists under the resolved path)"]),
 }
 
 NOT_APPLICABLE = {}
 
 MANIFEST_TEXT = {
+    "C11": dict(
+        text="Lean (Gsp.Props.C11 over Gsp.Ctx: abstract contexts, models of pathFromContext / pathFromDocument / FieldPathFromContext / TypeFromContext / TypeIDFromContext and the expansion specification storedKey): unknown terms and scoped "
+             "contexts that fail to load are errors, never another path or an empty type (unknown_term_is_error_ctx, unknown_term_is_error_type, context_load_failure_is_error); a numeric segment is an index and selects that member, out of range "
+             "is an error (numeric_segment_ctx, numeric_selects_member); the type identifier is the type term's @id (type_id_agrees); for a field of a typed node the document-side resolver, the context-side resolver and the specification agree "
+             "(top_level_field_agrees); d8_counterexample proves on the model that the full statement is false of the current code (known finding D8). Tie: the three real resolvers vs the models on generated schema/document pairs; "
+             "direct predicates: Entry exists under the resolved path with the leaf's value, context-side == document-side path, declared datatype == entry datatype, TypeID == stored rdf:type.",
+        note="PARTIAL: doc_eq_stored for arbitrary nesting is not a theorem (false because of D8; proved counter-example). Fixed in /repo: D9 (e305e65), D14 (21a9b11). Known findings: D8 (type-scoped context propagated into nested nodes), "
+             "F2 (paths ending in aliases of @type/@id resolve to keys under which nothing is stored), F1 (array positions)."),
     "C18": dict(
         text="Lean: an executable JSON Schema validator for the structural vocabulary under draft-07 and 2020-12 (Gsp.Schema, open-recursive keyword groups, fuelled for $ref) with theorems pinning the reference semantics: annotation_ignored "
              "(an unknown member such as $metadata never changes a node's verdict), checkKeywords_congr, not/allOf/anyOf/oneOf specifications, oneOf_two, ref_unfold, ref_siblings_ignored_draft07, draft07_items_eq_2020_prefixItems, "
